@@ -18,7 +18,7 @@ RULE = ("stratified + seeded random (configuration, sample) pairs; non-trivial =
         "(kind, configuration, sample)")
 REQUIRED = [f"ref_compared:{nn.label({'test': a, 'estim': b, 'bet': c})}" for a, b, c in nn.COMBOS] + \
            ["equiv_compared", "inverse_checked", "entries_eq", "entries_boundary", "stratum:nondyadic_boundary_neighbourhood", "stratum:early_wins_then_zeros_to_census", "stratum:long_sample",
-            "stratum:exact_hit_then_zero_then_nondyadic"]
+            "stratum:exact_hit_then_zero_then_nondyadic", "inverse_checked_with_null_mean_outside_0_u"]
 ASSUMPTIONS = ["eta_j and lambda_j are taken from the real estimator/bet (their ranges are C13's business)",
                "boundary-index conventions of DESIGN.md C12: at the index where the total first exceeds N t either the "
                "product value or 0 is accepted; where mu_j is within the code's tolerances of 0 or u either the product "
@@ -80,6 +80,10 @@ def run_shard(spec, rec):
             u = rng.choice(nn.U_CHOICES)
             k = rng.choice((1, 1, 3, 7))
             mu = [nn.dyadic(rng, 2.0 ** -6, u - 2.0 ** -6, 6) for _ in range(k)]
+            if rng.random() < 0.25:
+                # null conditional means outside (0,u): the total already exceeds N t (mu < 0), or cannot reach it (mu > u);
+                # the conversions are algebraic identities there as well
+                mu[rng.randrange(k)] = rng.choice((-0.25, -0.0625, -1.5, u + 0.125, u + 1.0))
             lam = [nn.dyadic(rng, 0, 4, 6) for _ in range(k)]
             run_case({"kind": "inverse", "u": u, "mu": mu, "lam": lam}, rec)
 
@@ -178,6 +182,8 @@ def run_inverse(case, rec):
     u = case["u"]
     obj = cls(u=u, N=100)
     rec.case(case, nontrivial=len(case["mu"]) > 1)
+    if any(m < 0 or m > u for m in case["mu"]):
+        rec.count("inverse_checked_with_null_mean_outside_0_u")
     for as_array in (True, False):
         mus = np.array(case["mu"], dtype=float) if as_array else case["mu"][0]
         lams = np.array(case["lam"], dtype=float) if as_array else case["lam"][0]
